@@ -18,7 +18,8 @@ def field (ws : List String) (k : String) : String :=
 
 def viewOf (ws : List String) : View × Nat :=
   let ids := parseList (field ws "ids")
-  let valid := parseList (field ws "valid")
+  -- nodes that went down and reported in again are live at query time (a status tick has passed)
+  let valid := parseList (field ws "valid") ++ parseList (field ws "flap")
   let loc := (field ws "local").toNat?.getD 0
   -- the local node's own status is always Valid (only non-local nodes are ever invalidated)
   (ids.map fun i => ⟨i, valid.contains i || i == loc⟩, loc)
